@@ -446,10 +446,14 @@ Fixpoint split_once_slash (s : str) : option (str * str) :=
                    | None => None
                    end
   end.
-(** extract_group("$share/<group>/<path>") = Some (group, path) *)
+(** extract_group("$share/<name>/<path>") = Some (<name>/<path>, path): the group is keyed by
+    share name and topic filter *)
 Definition extract_group (f : str) : option (str * str) :=
   match strip_prefix S_SHARE_SLASH f with
-  | Some s => split_once_slash s
+  | Some s => match split_once_slash s with
+              | Some (_, path) => Some (s, path)
+              | None => None
+              end
   | None => None
   end.
 Definition validate_subscription (path : str) : bool :=
@@ -616,6 +620,24 @@ Fixpoint commit_pubrels (l : acklog) (pks : list N) : acklog :=
   | k :: r => commit_pubrels (set_a_committed l (a_committed l ++ [APubRel k])) r
   end.
 
+(** a resumed session joins the groups of its restored shared requests again *)
+Fixpoint rejoin_groups (gs : list (str * group)) (strat : strategy) (client : str) (rqs : list drequest)
+  : list (str * group) :=
+  match rqs with
+  | [] => gs
+  | rq :: r =>
+      let gs' := match dr_group rq with
+                 | Some name =>
+                     let g := match al_get str_eqb name gs with
+                              | Some g => g
+                              | None => {| g_clients := []; g_idx := 0; g_cursor := dr_cursor rq; g_strategy := strat |}
+                              end in
+                     al_set str_eqb name (set_g_clients g (g_clients g ++ [client])) gs
+                 | None => gs
+                 end in
+      rejoin_groups gs' strat client r
+  end.
+
 (** re-register the subscriptions of a resumed session under the new connection id *)
 Fixpoint submap_add_all (m : list (str * list N)) (subs : list str) (id : N) : list (str * list N) :=
   match subs with
@@ -649,6 +671,7 @@ Definition handle_new_connection (st : rstate) (conn : connection) (link : N) : 
           | _ => ({| tr_id := client; tr_reqs := []; tr_status := Paused Busy |}, conn, [])
           end
         else ({| tr_id := client; tr_reqs := []; tr_status := Paused Busy |}, conn, []) in
+      let groups1 := rejoin_groups (r_groups st1) (cf_strategy (r_cfg st1)) client (tr_reqs trk) in
       let wills := match c_will conn1 with
                    | Some w => al_set str_eqb client w (r_wills st1)
                    | None => r_wills st1
@@ -668,7 +691,7 @@ Definition handle_new_connection (st : rstate) (conn : connection) (link : N) : 
                       r_submap := submap_add_all (r_submap st1) (c_subs conn2) id;
                       r_ibufs := ibufs; r_obufs := obufs; r_datalog := r_datalog st1; r_acks := acks;
                       r_trackers := trackers; r_ready := r_ready st1; r_notif := r_notif st1;
-                      r_groups := r_groups st1; r_wills := wills; r_links := r_links st1;
+                      r_groups := groups1; r_wills := wills; r_links := r_links st1;
                       r_oracle := r_oracle st1 |} in
         do _ <- dbg_no_dups st2 id;
         reschedule st2 id SInit.
